@@ -9,6 +9,10 @@ import ast
 from . import ty
 
 
+class SpecError(Exception):
+    pass
+
+
 class ClassSpec:
     def __init__(self, qual, fields, ghost, bases=(), value=False):
         self.qual = qual
@@ -117,6 +121,14 @@ def klass(qual, fields=None, ghost=None, bases=(), value=False, real=None):
         ty.declare_value_class(name, fields)
     else:
         ty.declare_obj(name)
+    prev = REG.classes.get(qual) or REG.class_by_name.get(name)
+    if prev is not None:
+        # a second declaration may only extend the first (same real class, superset of the fields with the same types):
+        # two sidecar modules loaded together must not silently give one class two meanings
+        newf = {k: ty.parse_type(v) for k, v in dict(fields or {}, **(ghost or {})).items()}
+        oldf = prev.all_fields()
+        if (real or qual) != prev.real or any(k not in newf or repr(newf[k]) != repr(t) for k, t in oldf.items()):
+            raise SpecError('specification class %s declared twice with incompatible fields (%s vs %s)' % (name, sorted(oldf), sorted(newf)))
     c = ClassSpec(qual, {}, {}, bases, value)
     REG.classes[qual] = c
     REG.class_by_name[name] = c
